@@ -114,6 +114,10 @@ func (b *Bulker) Run(ctx context.Context, bulk Bulk, result chan BulkElementResu
 	}
 
 	hasError := b.run(ctx, ctrl, bulkOptions.SchemaVersion, bulk, result, bulkOptions.ContinueOnFailure, bulkOptions.Parallel)
+	if !hasError && bulkOptions.Atomic && bulkOptions.InputError != nil && bulkOptions.InputError() != nil {
+		// all or nothing: the elements after the damage were never seen
+		hasError = true
+	}
 	if hasError && bulkOptions.Atomic {
 		if rollbackErr := ctrl.Rollback(ctx); rollbackErr != nil {
 			logging.FromContext(ctx).Errorf("failed to rollback transaction: %v", rollbackErr)
@@ -298,6 +302,10 @@ type BulkingOptions struct {
 	Atomic            bool
 	Parallel          bool
 	SchemaVersion     string
+	// InputError, when set, is consulted once the bulk has been read to its end: a streamed
+	// bulk is decoded while it runs, and one whose input turned out to be undecodable has not
+	// been received in full, so it cannot be applied atomically.
+	InputError func() error
 }
 
 func (opts BulkingOptions) Validate() error {
